@@ -4,13 +4,13 @@
 package rcv
 
 import (
+	"bytes"
 	"context"
 	"crypto/sha256"
 	"encoding/json"
 	"errors"
 	"flag"
 	"fmt"
-	"bytes"
 	"runtime"
 	"strconv"
 	"strings"
